@@ -170,13 +170,22 @@ def hPbRaw : List String → String → Res
 
 /-- `pbh bytes end` → ReadHeader: n:ver:hs:bs:err -/
 def hPbHeader : List String → String → Res
-  | [bytes, endK], _impl => do
+  | [bytes, endK], impl => do
     let bytes ← pBytes bytes; let endErr ← pEnd endK
     let (n, hi, err, _) := pbReadHeader ⟨bytes, endErr⟩
     let model := match hi with
       | some hi => s!"{n}:{showBytes hi.ver}:{hi.headerSize}:{hi.bodySize}:{showPbErr err}"
       | none => s!"{n}:x:0:0:{showPbErr err}"
-    some (model, "na")
+    -- spec: 32 bytes present -> the three fields as laid out (version stripped of trailing NULs,
+    -- two little-endian int64); otherwise the count of bytes available and EOF / UnexpectedEOF / the read error
+    let spec := if bytes.length ≥ 32 then
+        let v := ((bytes.take 16).reverse.dropWhile (· == 0)).reverse
+        let f (o : Nat) : Int := wrap64 (unle ((bytes.drop o).take 8))
+        s!"32:{showBytes v}:{f 16}:{f 24}:nil"
+      else
+        let e : PbErr := if endErr = .eof then (if bytes.length = 0 then .eof else .unexpectedEOF) else endErr
+        s!"{bytes.length}:x:0:0:{showPbErr (some e)}"
+    some (model, verdictEq spec impl)
   | _, _ => none
 
 /-! C20 -/
